@@ -45,6 +45,8 @@ fn make_store() -> (GlobalDataArc, Vec<(String, DataArc)>) {
             ("arr", arr.clone()),
             // alias: the same stored value under a second name
             ("al", arr),
+            // a second array with equal contents but its own cells
+            ("ar2", arc(Data::Array(vec![arc(Data::Integer(1)), arc(Data::Integer(2))]))),
             ("m", arc(Data::Map(outer))),
             ("mm", {
                 // a map whose only member is a map with the same key: m == m.b walks into itself
@@ -322,14 +324,17 @@ fn c11_families(thorough: bool) -> Vec<Family> {
     let ops = ["+", "-", "*", "/", "%", "<", "==", ":"];
     v.push(Family {
         name: "numeric-boundaries",
-        count: (nums.len() * nums.len() * ops.len()) as u64 + nums.len() as u64,
+        count: (nums.len() * nums.len() * ops.len()) as u64 + 2 * nums.len() as u64,
         gen: Box::new(move |i| {
             let nn = nums.len() as u64;
             let no = ops.len() as u64;
             if i < nn * nn * no {
                 format!("{} {} {}", nums[(i % nn) as usize], ops[((i / nn) % no) as usize], nums[(i / nn / no) as usize])
-            } else {
+            } else if i < nn * nn * no + nn {
                 format!("abs({})", nums[(i - nn * nn * no) as usize])
+            } else {
+                // the bare operand (as a condition: conversion to a truth value)
+                nums[(i - nn * nn * no - nn) as usize].to_string()
             }
         }),
     });
@@ -382,6 +387,8 @@ const SEQ_STMTS: &[&str] = &[
     "arr[0] = arr",
     "arr[0] = al",
     "m.b = m",
+    "ar2[0] = ar2",
+    "ar2[0] = arr",
     // operations on possibly self-containing / aliased operands
     "toString(x)",
     "x.toString()",
@@ -396,6 +403,9 @@ const SEQ_STMTS: &[&str] = &[
     "y != y.a",
     "arr == arr[0]",
     "m == m.b",
+    "arr == ar2",
+    "arr != ar2",
+    "mm == m",
     "x + x",
     "x + x[0]",
     "y + y",
@@ -782,6 +792,28 @@ fn check_case(prop: &str, c: &Case) -> (Vec<(String, String, String)>, u64, Vec<
             for h in health {
                 if !outs.iter().any(|o| matches!(o, Outcome::Panic(_))) {
                     viol.push(("store-health".to_string(), "store-health".into(), format!("after evaluating {:?}: {}", c.src, h)));
+                }
+            }
+        }
+        // the same source as a condition (guards, <if>): Datamodel::execute_condition converts the value to a truth value
+        {
+            let mut s = Sess::new();
+            let dm = &mut s.dm;
+            let src = c.src.clone();
+            let r = catch_unwind(AssertUnwindSafe(|| dm.execute_condition(&Data::Source(SourceCode::new(&src, 0))).is_ok()));
+            evals += 1;
+            match r {
+                Ok(ok) => classes.push(format!("cond:{}", if ok { "ok" } else { "err" })),
+                Err(_) => {
+                    let p = take_panics();
+                    let d = p.last().map(|x| format!("{} at {}", x.1.chars().take(60).collect::<String>(), x.2)).unwrap_or_default();
+                    let site = d.rsplit(" at ").next().unwrap_or("").to_string();
+                    viol.push(("panic".to_string(), format!("panic:condition:{}", site), format!("source {:?} evaluated as a condition panics: {}", c.src, d)));
+                }
+            }
+            if !viol.iter().any(|v| v.0 == "panic") {
+                for h in s.health() {
+                    viol.push(("store-health".to_string(), "store-health:condition".into(), format!("after evaluating {:?} as a condition: {}", c.src, h)));
                 }
             }
         }
